@@ -42,6 +42,18 @@
 (*               from SummonSwamp (IsClosing()=false) has no vigil yet and *)
 (*               never re-checks the flag; Close sets the flag and writes  *)
 (*               without draining vigils.                                  *)
+(*   "Resurrect" D_C16_WriterResurrectsDeleted: deleteHandler marks only   *)
+(*               records that are already in the file as deleted; a record *)
+(*               the writer has collected but not yet written is encoded   *)
+(*               as an INSERT after its acknowledged delete.               *)
+(*   "StaleDestroy" D_C16_StaleDestroyRemovesSuccessor: Destroy goes on    *)
+(*               although Close already owns the teardown of the instance; *)
+(*               it later removes the file and the map entry of the NAME,  *)
+(*               which by then belong to a successor instance.             *)
+(*   "StopTick"  D_C16_StopCloseOvertakesWriteTick: the Close called by    *)
+(*               graceful stop does not take closeWriteMutex; a write tick *)
+(*               that has collected its list writes it after the final     *)
+(*               flush (the chronicler re-opens lazily).                   *)
 (***************************************************************************)
 EXTENDS Integers, Sequences, FiniteSets, TLC
 
@@ -54,7 +66,7 @@ CONSTANTS Reqs,      \* request processes
           WithStop,  \* BOOLEAN: the stopper process exists
           WithTicks  \* BOOLEAN: the write-behind ticker exists (writeInterval > 0)
 
-AllDev == {"AutoDrop", "Stale", "Swap", "Gap"}
+AllDev == {"AutoDrop", "Stale", "Swap", "Gap", "Resurrect", "StaleDestroy", "StopTick"}
 
 Inst   == 1..MaxInst
 NoObj  == "none"
@@ -179,10 +191,11 @@ RBegin(r) ==
   /\ Obs("RBegin", r, ref[r])
   /\ UNCHANGED <<shut, map, ninst, file, fexists, op, ref, auto, cpc, clist, lidle, starget, cands, before, res>>
 
-\* strict design only: summon again after a failed re-check
+\* strict design only: summon again (after a failed flag re-check, or an explicit Destroy that lost to Close)
 RResummon(r) ==
   /\ pc[r] = "resummon"
-  /\ IF shut
+  /\ LET isD == op[r].op = "destroy" IN
+     IF shut
        THEN /\ pc' = [pc EXCEPT ![r] = "done"] /\ res' = [res EXCEPT ![r] = "rejected"]
             /\ UNCHANGED <<map, ninst, I, ref>>
        ELSE IF map = 0
@@ -190,12 +203,12 @@ RResummon(r) ==
             /\ LET n == ninst + 1 IN
                /\ ninst' = n /\ map' = n /\ ref' = [ref EXCEPT ![r] = n]
                /\ I' = [I EXCEPT ![n] = [EmptyInst EXCEPT
-                          !.alive = TRUE, !.vigils = 1,
+                          !.alive = TRUE, !.vigils = IF isD THEN 0 ELSE 1,
                           !.mem = [k \in Keys |-> IF file[k] # Absent THEN k ELSE NoObj],
                           !.obj = [x \in ObjIds |-> IF x \in Keys /\ file[x] # Absent
                                                      THEN [val |-> file[x], del |-> FALSE, filed |-> TRUE]
                                                      ELSE [val |-> "v0", del |-> FALSE, filed |-> FALSE]]]]
-            /\ pc' = [pc EXCEPT ![r] = "op"] /\ UNCHANGED res
+            /\ pc' = [pc EXCEPT ![r] = IF isD THEN "d_flag" ELSE "op"] /\ UNCHANGED res
        ELSE /\ I[map].closing = 0
             /\ ref' = [ref EXCEPT ![r] = map]
             /\ I' = [I EXCEPT ![map].idle = FALSE]
@@ -204,13 +217,15 @@ RResummon(r) ==
   /\ Obs("RResummon", r, 0)
   /\ UNCHANGED <<shut, file, fexists, op, auto, cpc, clist, lidle, starget, cands, before, used>>
 
-\* Set: CreateTreasure + Save -> SaveFunction (the record enters beaconKey and the waiting list)
+\* Set: CreateTreasure, Save -> SaveFunction (the record enters beaconKey and the waiting list), guard released,
+\* the handler's deferred CeaseVigil and the reply (no gate can be placed while the record guard is held)
 ROpSave(r) ==
   /\ pc[r] = "op" /\ op[r].op = "set"
   /\ LET i == ref[r]  k == op[r].k
          o == IF I[i].mem[k] # NoObj THEN I[i].mem[k] ELSE r
      IN
      I' = [I EXCEPT ![i].idle = FALSE,
+                    ![i].vigils = @ - 1,
                     ![i].obj[o] = IF I[i].mem[k] # NoObj THEN [@ EXCEPT !.val = r]
                                   ELSE [val |-> r, del |-> FALSE, filed |-> FALSE],
                     ![i].mem[k] = o,
@@ -218,18 +233,10 @@ ROpSave(r) ==
                     \* when the key is already listed
                     ![i].waiting[k] = IF I[i].mem[k] = NoObj THEN o
                                       ELSE IF @ = NoObj THEN o ELSE @]
-  /\ pc' = [pc EXCEPT ![r] = "ack"]
-  /\ Obs("ROpSave", r, ref[r])
-  /\ UNCHANGED <<shut, map, ninst, file, fexists, op, ref, auto, cpc, clist, lidle, starget, cands, before, res, used>>
-
-\* the handler's deferred CeaseVigil and the reply
-RAck(r) ==
-  /\ pc[r] = "ack"
-  /\ I' = [I EXCEPT ![ref[r]].vigils = @ - 1]
   /\ pc' = [pc EXCEPT ![r] = "done"]
   /\ res' = [res EXCEPT ![r] = "ok"]
   /\ cands' = Effect(r)
-  /\ Obs("RAck", r, ref[r])
+  /\ Obs("ROpSave", r, ref[r])
   /\ UNCHANGED <<shut, map, ninst, file, fexists, op, ref, auto, cpc, clist, lidle, starget, before, used>>
 
 \* deleteHandler: a record that is in the file gets a delete marker in the waiting list, one that was never
@@ -237,7 +244,7 @@ RAck(r) ==
 DelEffect(i, k) ==
   LET o == I[i].mem[k] IN
   [I EXCEPT ![i].idle = FALSE,
-            ![i].obj[o].del = IF I[i].obj[o].filed THEN TRUE ELSE @,
+            ![i].obj[o].del = IF I[i].obj[o].filed \/ ~Has("Resurrect") THEN TRUE ELSE @,
             ![i].waiting[k] = IF I[i].obj[o].filed THEN (IF @ = NoObj THEN o ELSE @) ELSE NoObj,
             ![i].mem[k] = NoObj]
 
@@ -296,13 +303,22 @@ AfterDestroy(r, II) ==
 \* Destroy: closing := 1, idempotency guard
 RDFlag(r) ==
   /\ pc[r] = "d_flag"
-  /\ LET i == ref[r] IN
+  /\ LET i == ref[r]
+         closeOwns == I[i].closing = 1 /\ ~I[i].destroyed      \* Close() raised the flag first and tears the instance down
+     IN
      IF I[i].destroyed
-       THEN AfterDestroy(r, [I EXCEPT ![i].closing = 1])
+       THEN AfterDestroy(r, [I EXCEPT ![i].closing = 1]) /\ UNCHANGED used
+       ELSE IF closeOwns /\ ~Has("StaleDestroy")
+       THEN \* strict: whoever raised the flag owns the teardown.  An auto-destroy just returns (the swamp is being
+            \* closed, nothing is lost); an explicit Destroy waits for the close and destroys the successor.
+            /\ IF auto[r] THEN AfterDestroy(r, [I EXCEPT ![i].vigils = @ + 1])   \* BeginVigil again: the handler's deferred CeaseVigil follows
+               ELSE pc' = [pc EXCEPT ![r] = "resummon"] /\ UNCHANGED <<I, res, cands>>
+            /\ UNCHANGED used
        ELSE /\ I' = [I EXCEPT ![i].closing = 1, ![i].destroyed = TRUE]
             /\ pc' = [pc EXCEPT ![r] = "d_drain"] /\ UNCHANGED <<res, cands>>
+            /\ used' = IF closeOwns THEN used \cup {"StaleDestroy"} ELSE used
   /\ Obs("RDFlag", r, ref[r])
-  /\ UNCHANGED <<shut, map, ninst, file, fexists, op, ref, auto, cpc, clist, lidle, starget, before, used>>
+  /\ UNCHANGED <<shut, map, ninst, file, fexists, op, ref, auto, cpc, clist, lidle, starget, before>>
 
 \* Vigil.WaitForActiveVigilsClosed
 RDDrain(r) ==
@@ -381,18 +397,24 @@ LCheck(i) ==
 
 CloseReturn(c, II) ==
   IF c.t = "L" THEN /\ cpc' = [cpc EXCEPT ![c] = "idle"] /\ I' = [II EXCEPT ![c.i].cwm = "none"]
-  ELSE /\ cpc' = [cpc EXCEPT ![c] = "done"] /\ I' = II
+  ELSE /\ cpc' = [cpc EXCEPT ![c] = "done"]
+       /\ I' = IF II[T(c)].cwm = "S" THEN [II EXCEPT ![T(c)].cwm = "none"] ELSE II
 
 \* closeMutex: already closing -> return; closing := 1
+\* (strict: the stopper's Close takes closeWriteMutex like the listener does, so it cannot overtake a write tick)
 CFlag(c) ==
   /\ c.t \in {"L", "S"} /\ cpc[c] = "c_enter"
-  /\ LET i == T(c) IN
-     IF I[i].closing = 1
-       THEN CloseReturn(c, I)
-       ELSE /\ I' = [I EXCEPT ![i].closing = 1]
-            /\ cpc' = [cpc EXCEPT ![c] = IF Has("Gap") THEN "c_collect" ELSE "c_drain"]
+  /\ LET i == T(c)
+         lockIt == c.t = "S" /\ ~Has("StopTick")
+     IN
+     /\ lockIt => I[i].cwm = "none"
+     /\ IF I[i].closing = 1
+          THEN CloseReturn(c, I) /\ UNCHANGED used
+          ELSE /\ I' = [I EXCEPT ![i].closing = 1, ![i].cwm = IF lockIt THEN "S" ELSE @]
+               /\ cpc' = [cpc EXCEPT ![c] = IF Has("Gap") THEN "c_collect" ELSE "c_drain"]
+               /\ used' = IF c.t = "S" /\ I[i].cwm = "W" THEN used \cup {"StopTick"} ELSE used
   /\ Obs("CFlag", c.t, T(c))
-  /\ UNCHANGED <<shut, map, ninst, file, fexists, pc, op, ref, auto, clist, lidle, starget, cands, before, res, used>>
+  /\ UNCHANGED <<shut, map, ninst, file, fexists, pc, op, ref, auto, clist, lidle, starget, cands, before, res>>
 
 \* strict design only: Close drains the vigils after raising the flag
 CDrain(c) ==
@@ -463,8 +485,10 @@ FWrite(c) ==
                /\ cpc' = [cpc EXCEPT ![c] = "idle"]
           ELSE /\ I' = II /\ cpc' = [cpc EXCEPT ![c] = "c_chron"]
   /\ clist' = [clist EXCEPT ![c] = {}]
+  /\ used' = IF ~I[T(c)].dead /\ \E e \in clist[c] : ~I[T(c)].obj[e[2]].del /\ I[T(c)].mem[e[1]] # e[2]
+             THEN used \cup {"Resurrect"} ELSE used       \* a record deleted after the collect is written as live
   /\ Obs("FWrite", c.t, T(c))
-  /\ UNCHANGED <<shut, map, ninst, pc, op, ref, auto, lidle, starget, cands, before, res, used>>
+  /\ UNCHANGED <<shut, map, ninst, pc, op, ref, auto, lidle, starget, cands, before, res>>
 
 -----------------------------------------------------------------------------
 (* write ticker *)
@@ -517,7 +541,7 @@ SClose ==
 -----------------------------------------------------------------------------
 Next ==
   \/ \E r \in Reqs : \/ \E o \in Menu : RSummon(r, o)
-                     \/ RBegin(r) \/ RResummon(r) \/ ROpSave(r) \/ RAck(r) \/ ROpDel(r) \/ ROpShift(r)
+                     \/ RBegin(r) \/ RResummon(r) \/ ROpSave(r) \/ ROpDel(r) \/ ROpShift(r)
                      \/ RAdCheck(r) \/ RAdCease(r) \/ RDFlag(r) \/ RDDrain(r) \/ RDDelete(r)
   \/ \E i \in Inst : TimePasses(i) \/ LRead(i) \/ LLock(i) \/ LCheck(i) \/ WLock(i) \/ WCheck(i) \/ WCollect(i)
   \/ \E c \in Callers : CFlag(c) \/ CDrain(c) \/ CCollect(c) \/ CChron(c) \/ FDelete(c) \/ FWrite(c)
@@ -531,13 +555,14 @@ Spec == Init /\ [][Next]_vars
 TypeOK ==
   /\ map \in 0..MaxInst /\ ninst \in 0..MaxInst
   /\ \A k \in Keys : file[k] \in Vals \cup {Absent}
-  /\ \A r \in Reqs : pc[r] \in {"idle", "begin", "resummon", "op", "ack", "adcheck", "ad_cease", "d_flag", "d_drain", "d_delete", "done"}
+  /\ \A r \in Reqs : pc[r] \in {"idle", "begin", "resummon", "op", "adcheck", "ad_cease", "d_flag", "d_drain", "d_delete", "done"}
   /\ used \subseteq Dev
 
 \* everything has come to rest and the swamp is not open: the next summon reads the file
 Terminal ==
   /\ \A r \in Reqs : pc[r] = "done"
   /\ map = 0
+  /\ \A i \in Inst : I[i].alive => I[i].cancelled      \* an instance that has left the map but still runs will close and flush
   /\ \A c \in Callers : cpc[c] \in {"idle", "done"}
 
 Durable == \A k \in Keys : file[k] \in Allowed(k)
